@@ -1,0 +1,146 @@
+//go:build verif
+
+package SolarUtil
+
+// Contracts for package SolarUtil, read by /verif/engine (govc). Comment-only: with or without the
+// build tag `verif` the compiled package is identical.
+
+//@ # ---------------------------------------------------------------- spec vocabulary (civil calendar)
+//@ # Taken from the property text, not from the code: Julian calendar up to 1582-10-04, Gregorian from
+//@ # 1582-10-15, nothing in between. jdn is the textbook integer Julian Day Number (Fliegel / Van Flandern),
+//@ # deliberately not the Meeus float formula the library uses.
+
+//@ spec func isleap(y int) bool
+//@   = ite(y < 1600, modf(y, 4) == 0, (modf(y, 4) == 0 && modf(y, 100) != 0) || modf(y, 400) == 0)
+
+//@ spec func dim(y int, m int) int
+//@   = ite(y == 1582 && m == 10, 21,
+//@     ite(m == 2, ite(isleap(y), 29, 28),
+//@     ite(m == 4 || m == 6 || m == 9 || m == 11, 30, 31)))
+
+//@ spec func diy(y int) int
+//@   = ite(y == 1582, 355, ite(isleap(y), 366, 365))
+
+//@ spec func validYmd(y int, m int, d int) bool
+//@   = 1 <= m && m <= 12 && 1 <= d && ite(y == 1582 && m == 10, d <= 31 && !(d > 4 && d < 15), d <= dim(y, m))
+
+//@ spec func validHms(h int, mi int, s int) bool
+//@   = 0 <= h && h <= 23 && 0 <= mi && mi <= 59 && 0 <= s && s <= 59
+
+//@ spec func inYears(y int) bool
+//@   = 1 <= y && y <= 9999
+
+//@ spec func gregorian(y int, m int, d int) bool
+//@   = y > 1582 || (y == 1582 && (m > 10 || (m == 10 && d >= 15)))
+
+//@ spec func jdnG(y int, m int, d int) int
+//@   = d + divf(153*(m+12*divf(14-m, 12)-3)+2, 5) + 365*(y+4800-divf(14-m, 12)) + divf(y+4800-divf(14-m, 12), 4) - divf(y+4800-divf(14-m, 12), 100) + divf(y+4800-divf(14-m, 12), 400) - 32045
+
+//@ spec func jdnJ(y int, m int, d int) int
+//@   = d + divf(153*(m+12*divf(14-m, 12)-3)+2, 5) + 365*(y+4800-divf(14-m, 12)) + divf(y+4800-divf(14-m, 12), 4) - 32083
+
+//@ spec func jdn(y int, m int, d int) int
+//@   = ite(gregorian(y, m, d), jdnG(y, m, d), jdnJ(y, m, d))
+
+//@ # day-of-year of a valid date, 1-based, with the ten dropped days of October 1582 not counted
+//@ spec func doy(y int, m int, d int) int
+//@   = jdn(y, m, d) - jdn(y, 1, 1) + 1
+
+//@ # weekday 0 = Sunday
+//@ spec func wd(y int, m int, d int) int
+//@   = modf(jdn(y, m, d)+1, 7)
+
+//@ # ---------------------------------------------------------------- spec adequacy lemmas
+
+//@ lemma leapAgree(y int) [C04]
+//@   requires 1582 <= y && y < 1600
+//@   ensures (modf(y, 4) == 0) == ((modf(y, 4) == 0 && modf(y, 100) != 0) || modf(y, 400) == 0)
+
+//@ lemma gap() [C04]
+//@   ensures jdn(1582, 10, 15) == jdn(1582, 10, 4) + 1
+//@   ensures wd(1582, 10, 4) == 4 && wd(1582, 10, 15) == 5
+//@   ensures !validYmd(1582, 10, 5) && !validYmd(1582, 10, 14) && validYmd(1582, 10, 4) && validYmd(1582, 10, 15)
+
+//@ lemma epoch() [C04]
+//@   ensures jdn(2000, 1, 1) == 2451545 && jdn(1, 1, 1) == 1721424 && jdn(9999, 12, 31) == 5373484
+//@   ensures wd(2000, 1, 1) == 6
+
+//@ # first of next month = first of this month + length of this month
+//@ lemma monthStep(y int, m int) [C04]
+//@   requires -100 <= y && y <= 10100 && 1 <= m && m <= 12
+//@   ensures jdn(ite(m == 12, y+1, y), ite(m == 12, 1, m+1), 1) == jdn(y, m, 1) + dim(y, m)
+
+//@ lemma yearStep(y int) [C04]
+//@   requires -100 <= y && y <= 10100
+//@   ensures jdn(y+1, 1, 1) == jdn(y, 1, 1) + diy(y)
+
+//@ # within a month the day number is linear (with the 1582-10 renumbering)
+//@ lemma dayLinear(y int, m int, d int) [C04]
+//@   requires -100 <= y && y <= 10100 && validYmd(y, m, d)
+//@   ensures jdn(y, m, d) == jdn(y, m, 1) + ite(y == 1582 && m == 10 && d >= 15, d-11, d-1)
+
+//@ # chronological (lexicographic) order of valid dates is the order of jdn
+//@ lemma jdnMono(y1 int, m1 int, d1 int, y2 int, m2 int, d2 int) [C04]
+//@   requires -100 <= y1 && y1 <= 10100 && -100 <= y2 && y2 <= 10100 && validYmd(y1, m1, d1) && validYmd(y2, m2, d2)
+//@   ensures (y1 < y2 || (y1 == y2 && (m1 < m2 || (m1 == m2 && d1 < d2)))) == (jdn(y1, m1, d1) < jdn(y2, m2, d2))
+
+//@ # Meeus' formula, integer part: the library's float expression computes the same day number as jdn.
+//@ # 365.25 = 1461/4 exactly; floor(30.6001*k) == floor(306001*k/10000) for the double nearest 30.6001, k in 4..15
+//@ # (checked where it is used: the case split on month folds the product to a constant).
+//@ lemma meeusFwd(y int, m int, d int) [C04]
+//@   requires -100 <= y && y <= 10100 && validYmd(y, m, d)
+//@   ensures divf(1461*(ite(m <= 2, y-1, y)+4716), 4) + divf(306001*(ite(m <= 2, m+12, m)+1), 10000) + d +
+//@           ite(gregorian(y, m, d), 2 - divf(ite(m <= 2, y-1, y), 100) + divf(divf(ite(m <= 2, y-1, y), 100), 4), 0) - 1524 == jdn(y, m, d)
+//@   ensures gregorian(y, m, d) == (y*372+m*31+d >= 588829)
+//@   split m in 1..12
+
+//@ # ---------------------------------------------------------------- functions
+
+//@ func IsLeapYear(year int) bool [C04 C07]
+//@   ensures result == isleap(year)
+
+//@ func GetDaysOfYear(year int) int [C04]
+//@   ensures result == diy(year)
+
+//@ func GetDaysOfMonth(year int, month int) int [C04 C07]
+//@   requires 1 <= month && month <= 12
+//@   ensures result == dim(year, month)
+
+//@ func GetDaysInYear(year int, month int, day int) int [C04]
+//@   requires -100 <= year && year <= 10100 && validYmd(year, month, day)
+//@   ensures result == doy(year, month, day)
+//@   loop 1 invariant 1 <= i && i <= month && days == jdn(year, i, 1) - jdn(year, 1, 1)
+//@   loop 1 decreases month - i
+
+//@ func GetDaysBetween(ay int, am int, ad int, by int, bm int, bd int) int [C04]
+//@   requires -100 <= ay && ay <= 10100 && -100 <= by && by <= 10100 && validYmd(ay, am, ad) && validYmd(by, bm, bd)
+//@   ensures result == jdn(by, bm, bd) - jdn(ay, am, ad)
+//@   loop 1 invariant by+1 <= i && i <= ay && days == jdn(i, 1, 1) - jdn(by, bm, bd) - 1
+//@   loop 1 decreases ay - i
+//@   loop 2 invariant ay+1 <= i && i <= by && days == jdn(i, 1, 1) - jdn(ay, am, ad) - 1
+//@   loop 2 decreases by - i
+
+//@ func IsBefore(ay int, am int, ad int, ah int, ai int, as int, by int, bm int, bd int, bh int, bi int, bs int) bool [C04]
+//@   ensures result == (ay < by || (ay == by && (am < bm || (am == bm && (ad < bd || (ad == bd && (ah < bh || (ah == bh && (ai < bi || (ai == bi && as < bs))))))))))
+
+//@ # The float result is within 2^-20 day (0.09 s) of the exact value jdn - 1/2 + seconds/86400.
+//@ func GetJulianDay(year int, month int, day int, hour int, minute int, second int) float64 [C04]
+//@   requires -100 <= year && year <= 10100 && validYmd(year, month, day) && validHms(hour, minute, second)
+//@   ensures result - (float64(jdn(year, month, day)) - 0.5 + float64(hour*3600+minute*60+second)/86400.0) <= 1.0/1048576.0
+//@   ensures (float64(jdn(year, month, day)) - 0.5 + float64(hour*3600+minute*60+second)/86400.0) - result <= 1.0/1048576.0
+//@   ensures implies(hour == 0 && minute == 0 && second == 0, result == float64(jdn(year, month, day)) - 0.5)
+//@   ensures implies(hour == 12 && minute == 0 && second == 0, result == float64(jdn(year, month, day)))
+//@   use meeusFwd(year, month, day)
+//@   cut d: d - (float64(day) + float64(hour*3600+minute*60+second)/86400.0) <= 1.0/1073741824.0 &&
+//@          (float64(day) + float64(hour*3600+minute*60+second)/86400.0) - d <= 1.0/1073741824.0 &&
+//@          float64(day) <= d && d < float64(day)+1
+//@   split month in 1..12
+
+//@ func GetWeek(year int, month int, day int) int [C04 C15 C20]
+//@   requires -100 <= year && year <= 10100 && validYmd(year, month, day)
+//@   ensures result == wd(year, month, day)
+
+//@ # number of weeks (first weekday `start`) meeting a month: index of the week holding the last day
+//@ func GetWeeksOfMonth(year int, month int, start int) int [C15]
+//@   requires -100 <= year && year <= 10100 && 1 <= month && month <= 12 && 0 <= start && start <= 6
+//@   ensures result == divf(dim(year, month)+modf(wd(year, month, 1)-start, 7)-1, 7) + 1
